@@ -33,11 +33,25 @@ TCmp ==
   /\ bad' = Note(bad, First(<<
         <<Ev.r = CompareKV(Ev.a, Ev.b), "C19:CompareKV does not order pairs as bytes.Compare orders their keys">>,
         <<Ev.rr = -Ev.r, "C19:CompareKV is not antisymmetric">> >>), "BAD")
+(* a stream with one item of 16 MiB or more: the headers found at the offsets the format prescribes, the file size and
+   the reader's results are logged instead of the bytes *)
+RECURSIVE SumLens(_)
+SumLens(q) == IF q = <<>> THEN 0 ELSE 4 + Head(q) + SumLens(Tail(q))
+THuge ==
+  /\ Step("Huge")
+  /\ bad' = Note(bad, First(<<
+        <<Ev.werr = "" /\ Ev.rerr = "", "C19:writer or reader reported an error on an undamaged stream with a large item">>,
+        <<Ev.size = SumLens(Ev.lens) + 4, "C19:file size differs from the framing of the items written (large item)">>,
+        <<\A i \in 1..Len(Ev.lens) : Ev.hdrs[i] = BE32(Ev.lens[i]), "C19:length prefix of a large item is not its length in 4 big-endian bytes">>,
+        <<Ev.hdrs[Len(Ev.lens) + 1] = BE32(0), "C19:zero-length terminator missing after a large item">>,
+        <<Ev.dlens = Ev.lens /\ \A i \in 1..Len(Ev.same) : Ev.same[i], "C19:items read back differ from the items written (large item)">>,
+        <<Ev.eos, "C19:reader did not report end-of-stream after the last item">>,
+        <<Ev.sumeq, "C19:reader checksum differs from the writer checksum">> >>), "BAD")
 (* a panic raised by a legal call sequence is behaviour of the real code (driver: guarded()) *)
 TPanic == /\ l <= N /\ Ev.e = "Panic" /\ l' = l + 1 /\ UNCHANGED x
           /\ bad' = Note(bad, "C19:the call panicked: " \o Ev.msg \o " (" \o Ev.where \o ")", "BAD")
 TDone == l = N + 1 /\ UNCHANGED tvars
-TNext == TStream \/ TKV \/ TCmp \/ TPanic \/ TDone
+TNext == TStream \/ TKV \/ TCmp \/ THuge \/ TPanic \/ TDone
 TSpec == TInit /\ [][TNext]_tvars
 Good == bad = ""
 =============================================================================
